@@ -16,6 +16,11 @@ def sh(cmd, **kw):
     return subprocess.run(cmd, shell=True, text=True, capture_output=True, env=env, **kw)
 try:
     r = sh("git -C /repo worktree add -q --detach %s HEAD" % wt); assert r.returncode == 0, r.stderr
+    if demo:
+        shutil.copy(demo, os.path.join(wt, "zz_demo_test.go"))
+        r = sh("go test -vet=off -count=1 -run . ./ 2>&1 | tail -5", cwd=wt)
+        print("demo without change:", "passes" if ("ok  " in r.stdout and "FAIL" not in r.stdout) else "DOES NOT PASS\n" + r.stdout)
+        os.remove(os.path.join(wt, "zz_demo_test.go"))
     r = sh("git apply %s" % patch, cwd=wt); assert r.returncode == 0, "patch does not apply: " + r.stderr
     r = sh("go build ./... && go test -vet=off -count=1 ./... 2>&1 | tail -3", cwd=wt)
     print("suite with change:", "PASS" if "ok  \tgithub.com/influxdata/influxql" in r.stdout else "FAIL\n" + r.stdout + r.stderr)
